@@ -679,6 +679,11 @@ def _oracle_c11(ctx, sc, m, req_star, S0, S1, D0, D1, T, F, placed, fail):
                 ctx.violate("present-resent", "any", m.lab(o))
             if o in T or o in F:
                 ctx.violate("present-reported", "any", m.lab(o))
+    for o in sorted(F):
+        # whatever a failed upload left under the object's name must not be a mismatching object
+        # (a retry would take it for delivered)
+        if o in D1 and o not in D0 and model.check_object(o, D1[o]) is not None:
+            ctx.violate("failed-left-mismatching-object", "any", f"{m.lab(o)} ({len(D1[o])} bytes) failing={fail}")
     if S1 != S0:
         changed = sorted(set(S0) ^ set(S1)) + [o for o in S0 if o in S1 and S0[o] != S1[o]]
         ctx.violate("source-modified", "any", [m.lab(o) for o in changed])
